@@ -694,6 +694,47 @@ func init() {
 			return e.unmarshal(fr, format, data, a[1])
 		}
 	}
+	// Encoders: Encode(v) writes the canonical rendering of v (concrete values) followed by a
+	// newline to the writer the encoder was built on
+	encode := func(fr *frame, a []value) value {
+		i := fr.i
+		p, _ := a[0].(*value)
+		w, ok := i.env.decoders[p].(iface)
+		if !ok || w.t == nil {
+			i.abort(abortUnsupported, "Encoder over an unknown writer")
+		}
+		var sb strings.Builder
+		if !canonRender(a[1], &sb) {
+			i.abort(abortUnsupported, "Encoder.Encode of a symbolic value")
+		}
+		sb.WriteString("\n")
+		if wp, isPtr := w.v.(*value); isPtr && wp == nil {
+			// os.Stdout / os.Stderr (package os is not initialised in the model: nil *os.File)
+			i.stdout.WriteString(sb.String())
+			return iface{}
+		}
+		if of := i.readerFile(w, 0); of != nil && (of.path == "/dev/stdout" || of.path == "/dev/stderr") {
+			i.stdout.WriteString(sb.String())
+			return iface{}
+		}
+		m := i.prog.LookupMethod(w.t, nil, "Write")
+		if m == nil {
+			i.abort(abortUnsupported, "Encoder: writer without a Write method")
+		}
+		data := make([]value, sb.Len())
+		for k := 0; k < sb.Len(); k++ {
+			data[k] = sb.String()[k]
+		}
+		res := i.call(fr, 0, m, []value{w.v, data})
+		if t, ok := res.(tuple); ok && len(t) == 2 {
+			return t[1]
+		}
+		return iface{}
+	}
+	externals["encoding/json.NewEncoder"] = newDecoder("encoding/json", "Encoder")
+	externals["(*encoding/json.Encoder).Encode"] = encode
+	externals["(*encoding/json.Encoder).SetIndent"] = func(fr *frame, a []value) value { return nil }
+	externals["(*encoding/json.Encoder).SetEscapeHTML"] = func(fr *frame, a []value) value { return nil }
 	externals["gopkg.in/yaml.v3.NewDecoder"] = newDecoder("gopkg.in/yaml.v3", "Decoder")
 	externals["(*gopkg.in/yaml.v3.Decoder).Decode"] = decode("yaml")
 	externals["encoding/json.NewDecoder"] = newDecoder("encoding/json", "Decoder")
